@@ -39,6 +39,8 @@ type APICall struct {
 	DirBefore           bool
 	Panic               string `json:"panic,omitempty"`
 	Phase               string `json:"phase,omitempty"` // setup, body, epilogue, postclose
+	LinkBefore          bool   `json:"-"`               // the (cleaned) path was a symbolic link when the call was made
+	Real                string `json:"-"`               // kqueue flavour: absolute, symlink-free path of a successfully added path
 }
 
 type Delivered struct {
@@ -96,6 +98,7 @@ type WatcherRec struct {
 type Exec struct {
 	sc                  *Scenario
 	sim                 *sinot.Sim
+	kq                  kqState
 	S                   *ssim.Sched
 	root                string
 	W                   []*WatcherRec
@@ -116,6 +119,9 @@ type WorldRec struct {
 	Task string
 	Op   Op
 	Err  string
+	// what was there before the operation (kqueue flavour)
+	PreExisted bool // create/write: the file existed; rename: the target existed
+	IsDir      bool // the operand is a directory
 }
 
 //go:norace
@@ -168,6 +174,9 @@ func classify(err error) string {
 
 func (x *Exec) spell(op Op) string {
 	p := op.P
+	if op.Raw {
+		return p
+	}
 	if op.Abs {
 		// keep redundant elements of the spelling: join by hand
 		p = x.root + "/" + p
@@ -176,6 +185,11 @@ func (x *Exec) spell(op Op) string {
 		p += "/..."
 	}
 	return p
+}
+
+func isSymlink(p string) bool {
+	var st unix.Stat_t
+	return unix.Lstat(p, &st) == nil && st.Mode&unix.S_IFMT == unix.S_IFLNK
 }
 
 func resolve(path string, nofollow bool) (uint64, bool, string) {
@@ -248,6 +262,7 @@ func (x *Exec) api(task string, op Op, phase string) *APICall {
 			rp = strings.TrimSuffix(path, "/...")
 		}
 		c.InoBefore, c.DirBefore, c.ResErrBefore = resolve(cleanPath(rp), op.NoFol)
+		c.LinkBefore = isSymlink(cleanPath(rp))
 	}
 	var err error
 	c.Inv = step()
@@ -288,6 +303,13 @@ func (x *Exec) api(task string, op Op, phase string) *APICall {
 			rp = strings.TrimSuffix(path, "/...")
 		}
 		c.InoAfter, _, _ = resolve(cleanPath(rp), op.NoFol)
+		if isKq {
+			ap := cleanPath(rp)
+			if !strings.HasPrefix(ap, "/") {
+				ap = x.root + "/" + ap
+			}
+			c.Real, _ = filepathEvalSymlinks(ap)
+		}
 	}
 	if wr.Inst != nil {
 		for _, sc := range wr.Inst.Calls[nCalls:] {
@@ -455,6 +477,23 @@ func (x *Exec) mainTask() {
 		if wr.W != nil {
 			x.api("main", Op{K: OpWatchList, W: wr.Idx}, "epilogue")
 		}
+	}
+	closedInBody := false
+	for _, wr := range x.W {
+		if wr.ClosedRet > 0 {
+			closedInBody = true
+		}
+	}
+	if sc.Cfg.RemoveAllAtEnd && !closedInBody {
+		for _, c := range x.H {
+			if c.Phase == "epilogue" && c.Kind == OpWatchList {
+				for _, p := range c.List {
+					x.api("main", Op{K: OpRemove, W: c.W, P: p, Raw: true}, "epilogue-remove")
+				}
+			}
+		}
+		ssim.Quiesce()
+		x.snapshot("removed")
 	}
 	for _, wr := range x.W {
 		if wr.W != nil {
